@@ -214,66 +214,141 @@ def check(model, rep, tier):
             line=af.node.lineno, nontrivial=False)
 
   # ---------------------------------------------------------------- LV-BLOCK
-  blo = ta.methods.get('_block_statement_live_out')
   from sa import family
-  bp = blo.params()[0]
-  sets = [c for c in ast.walk(blo.node) if isinstance(c, ast.Call) and
-          core.dotted(c.func) == 'anno.setanno' and len(c.args) == 3 and
-          core.norm(c.args[0]) == bp and
-          core.norm(c.args[1]) == 'anno.Static.LIVE_VARS_OUT']
-  ok = len(sets) == 1
-  facts = {}
-  if ok:
-    uf = family.union_family(blo, sets[0].args[2], sets[0])
-    facts = {'union_over': uf[0] if uf else None, 'of': uf[1] if uf else None}
-    ok = uf == ('self.current_analyzer.graph.stmt_next[%s]' % bp,
-                'self.current_analyzer.in_[N]')
-  rep.check(ok, 'LV-BLOCK', '%s:all-statement-successors' % blo.site,
-            'the live-out of a compound statement is the union of the live-in '
-            'of *all* its statement successors', facts, line=blo.node.lineno,
-            witness='zero-iteration loop followed by a read')
+  from sa import pathsym
+
+  def setters(key):
+    out = []
+    for nm, fi_ in ta.methods.items():
+      if nm.startswith('visit'):
+        continue
+      ps_ = fi_.params()
+      if ps_ and any(isinstance(c, ast.Call) and core.dotted(c.func) == 'anno.setanno' and
+                     len(c.args) == 3 and core.norm(c.args[0]) == ps_[0] and
+                     core.norm(c.args[1]) == 'anno.Static.' + key
+                     for c in ast.walk(fi_.node)):
+        out.append(fi_)
+    return out
+
+  def check_out(fi_, bp, site):
+    """LIVE_VARS_OUT of bp = union of in_[s] over all statement successors"""
+    sets = [c for c in ast.walk(fi_.node) if isinstance(c, ast.Call) and
+            core.dotted(c.func) == 'anno.setanno' and len(c.args) == 3 and
+            tpl.xnorm(fi_, c.args[0], c) in (bp, 'self.generic_visit(%s)' % bp) and
+            core.norm(c.args[1]) == 'anno.Static.LIVE_VARS_OUT']
+    ok = len(sets) == 1
+    facts = {}
+    if ok:
+      uf = family.union_family(fi_, sets[0].args[2], sets[0])
+      facts = {'union_over': uf[0] if uf else None, 'of': uf[1] if uf else None}
+      ok = uf is not None and uf[1] == 'self.current_analyzer.in_[N]' and uf[0] in (
+          'self.current_analyzer.graph.stmt_next[%s]' % bp,
+          'self.current_analyzer.graph.stmt_next[self.generic_visit(%s)]' % bp)
+    rep.check(ok, 'LV-BLOCK', site,
+              'the live-out of a compound statement is the union of the live-in '
+              'of *all* its statement successors', facts, line=fi_.node.lineno,
+              witness='zero-iteration loop followed by a read')
+
+  def check_in(fi_, ip, ie, site):
+    """LIVE_VARS_IN of ip = live-in of the entry ie (its CFG node, or its own
+    LIVE_VARS_IN annotation when it is a compound statement without a node)"""
+    class _V(ast.NodeTransformer):
+      def visit_Call(self, c):
+        self.generic_visit(c)
+        if core.norm(c.func) == 'self.generic_visit' and len(c.args) == 1:
+          return c.args[0]
+        return c
+    isets = [c for c in ast.walk(fi_.node) if isinstance(c, ast.Call) and
+             core.dotted(c.func) == 'anno.setanno' and len(c.args) == 3 and
+             core.norm(_V().visit(tpl.expand(fi_, c.args[0], c))) == ip and
+             core.norm(c.args[1]) == 'anno.Static.LIVE_VARS_IN']
+    vals_in = []
+    for c in isets:
+      for conds, v in pathsym.path_values(fi_.node, c, c.args[2]):
+        arms = [_V().visit(v)]
+        while any(isinstance(a, ast.IfExp) for a in arms):     # both arms of a choice
+          arms = [b for a in arms for b in (
+              (a.body, a.orelse) if isinstance(a, ast.IfExp) else (a,))]
+        vals_in.extend(core.norm(a) for a in arms)
+    idx_forms = ['self.current_analyzer.graph.index[%s]' % ie,
+                 'self.current_analyzer.graph.index.get(%s)' % ie]
+    allowed_in = {'anno.getanno(%s, anno.Static.LIVE_VARS_IN)' % ie}
+    for ix in idx_forms:
+      allowed_in |= {'frozenset(self.current_analyzer.in_[%s])' % ix,
+                     'self.current_analyzer.in_[%s]' % ix}
+    rep.check(bool(vals_in) and ie is not None and set(vals_in) <= allowed_in and
+              any('in_[' in v for v in vals_in) and any('getanno' in v for v in vals_in),
+              'LV-BLOCK', site,
+              'the live-in of a compound statement is the live-in of its entry: of '
+              'the entry\'s CFG node, or the LIVE_VARS_IN annotation of an entry '
+              'that is itself a compound statement',
+              {'values': sorted(set(vals_in)), 'entry': ie}, line=fi_.node.lineno,
+              witness='try: whose first statement is an if / for / while')
+
   ENTRY = {'visit_If': '.test', 'visit_For': '.iter',
            'visit_While': '.test', 'visit_Try': '.body[0]',
            'visit_ExceptHandler': '.body[0]', 'visit_With': '.items[0]'}
-  for h, entry in ENTRY.items():
-    m = ta.methods.get(h)
-    ok = m is not None
-    facts = {}
-    if ok:
-      # unconditional calls of the handler (helpers that are new are already
-      # expanded; whether a call's value is used, returned or dropped is
-      # immaterial: the annotations are side effects on the node)
-      p = m.params()[0]
-      calls = []
-      for st in m.node.body:
-        if isinstance(st, (ast.If, ast.For, ast.While, ast.Try)):
-          continue
-        calls += [c for c in ast.walk(st) if isinstance(c, ast.Call)]
-      class _Same(ast.NodeTransformer):
-        # generic_visit and the two annotators hand back the node they were given
-        def visit_Call(self, c):
-          self.generic_visit(c)
-          if core.norm(c.func) in ('self.generic_visit', 'self._block_statement_live_out',
-                                   'self._block_statement_live_in') and c.args:
-            return c.args[0]
-          return c
+  outs_, ins_ = setters('LIVE_VARS_OUT'), setters('LIVE_VARS_IN')
+  if len(outs_) == 1 and len(ins_) == 1:
+    # annotators as methods: their bodies once, and the handlers' calls
+    blo, bli = outs_[0], ins_[0]
+    check_out(blo, blo.params()[0], '%s:all-statement-successors' % blo.site)
+    check_in(bli, bli.params()[0], (bli.params() + [None])[1],
+             '%s:live-in-of-entry' % bli.site)
+    for h, entry in ENTRY.items():
+      m = ta.methods.get(h)
+      ok = m is not None
+      facts = {}
+      if ok:
+        # unconditional calls of the handler (helpers that are new are already
+        # expanded; whether a call's value is used, returned or dropped is
+        # immaterial: the annotations are side effects on the node)
+        p = m.params()[0]
+        calls = []
+        for st in m.node.body:
+          if isinstance(st, (ast.If, ast.For, ast.While, ast.Try)):
+            continue
+          calls += [c for c in ast.walk(st) if isinstance(c, ast.Call)]
 
-      def ident(e, at):
-        return core.norm(_Same().visit(tpl.expand(m, e, at)))
-      texts = []
-      for c in calls:
-        f_ = core.norm(c.func)
-        if f_ in ('self.generic_visit', 'self._block_statement_live_out',
-                  'self._block_statement_live_in') and c.args:
-          texts.append('%s(%s)' % (f_, ', '.join(ident(a, c) for a in c.args)))
-      facts = {'calls': texts}
-      ok = ('self._block_statement_live_in(%s, %s%s)' % (p, p, entry)) in texts and (
-          h == 'visit_With' or ('self._block_statement_live_out(%s)' % p) in texts) \
-          and ('self.generic_visit(%s)' % p) in texts
-    rep.check(ok, 'LV-BLOCK', '%s:%s:entry-node' % (LV, h),
-              'live-in of %s must be read at its entry node (node%s) and its '
-              'live-out recorded' % (h[6:], entry), facts,
-              line=m.node.lineno if m else None)
+        class _Same(ast.NodeTransformer):
+          # generic_visit and the annotators hand back the node they were given
+          def visit_Call(self, c):
+            self.generic_visit(c)
+            if core.norm(c.func) in ('self.generic_visit', 'self.' + blo.name,
+                                     'self.' + bli.name) and c.args:
+              return c.args[0]
+            return c
+
+        def ident(e, at):
+          return core.norm(_Same().visit(tpl.expand(m, e, at)))
+        texts = []
+        for c in calls:
+          f_ = core.norm(c.func)
+          if f_ in ('self.generic_visit', 'self.' + blo.name, 'self.' + bli.name) and c.args:
+            texts.append('%s(%s)' % (f_, ', '.join(ident(a, c) for a in c.args[:2])))
+        facts = {'calls': texts}
+        ok = ('self.%s(%s, %s%s)' % (bli.name, p, p, entry)) in texts and (
+            h == 'visit_With' or blo is bli or ('self.%s(%s)' % (blo.name, p)) in texts) \
+            and ('self.generic_visit(%s)' % p) in texts
+      rep.check(ok, 'LV-BLOCK', '%s:%s:entry-node' % (LV, h),
+                'live-in of %s must be read at its entry node (node%s) and its '
+                'live-out recorded' % (h[6:], entry), facts,
+                line=m.node.lineno if m else None)
+  elif not outs_ and not ins_:
+    # annotators written out in every handler (or expanded there by the
+    # pre-pass): the same two rules, per handler
+    for h, entry in ENTRY.items():
+      m = ta.methods.get(h)
+      if m is None:
+        rep.violation('LV-BLOCK', '%s:%s:entry-node' % (LV, h), 'handler missing')
+        continue
+      p = m.params()[0]
+      if h != 'visit_With':
+        check_out(m, p, '%s:%s:all-statement-successors' % (LV, h))
+      check_in(m, p, p + entry, '%s:%s:entry-node' % (LV, h))
+  else:
+    raise core.AnalysisError('block live-out / live-in annotators not identified')
+
   vis = ta.methods['visit']
   ok = pat.has(vis.node, 'anno.setanno(%s, anno.Static.LIVE_VARS_IN, '
                'frozenset(self.current_analyzer.in_[_C_]))' % vis.params()[0])
